@@ -39,7 +39,8 @@ def planDumpX (provs : List PSpec) (ret : Nat) : String :=
   | .ok p =>
     let thr := fun (l : List Nat) => " ".intercalate (l.map (dumpCall true p.g p.b))
     let rp := p.b.params.getD p.b.retParam default
-    s!"OK async={hasAsyncNodes p.g} err={p.b.isErr} args={sigArgs p} main=[{thr p.parent}] go=[{" | ".intercalate (p.chains.map thr)}] ret=v{rp.node}.{rp.group}"
+    let retS := if rp.isArg then s!"a{rp.node}:{(p.g.nodes.getD rp.node default).ty}" else s!"v{rp.node}.{rp.group}"
+    s!"OK async={hasAsyncNodes p.g} err={p.b.isErr} args={sigArgs p} main=[{thr p.parent}] go=[{" | ".intercalate (p.chains.map thr)}] ret={retS}"
 
 end KV
 
